@@ -32,6 +32,13 @@ Proof.
   cbn. rewrite (raw_step_addrem e l l1 E). cbn. eapply IH; exact H.
 Qed.
 
+Lemma addrem_transformable : forall tr evs, forallb is_addrem evs = true -> events_transformable tr evs = true.
+Proof.
+  intros tr evs H. destruct tr; cbn; [reflexivity| |];
+    (induction evs as [|e r IH]; [reflexivity|]; cbn in H; apply andb_true_iff in H as [He Hr];
+     cbn [forallb]; rewrite (IH Hr); destruct e; cbn in He; try discriminate; reflexivity).
+Qed.
+
 Section Ev.
 Context {C Q : Type}.
 Variable h : qhandler C Q.
